@@ -108,7 +108,34 @@ class SigmaCollection:
         )
 
         # Sort rules by reference order
-        self.rules = list(sorted(self.rules))
+        self.rules = self._sort_by_reference_order(self.rules)
+
+    @staticmethod
+    def _sort_by_reference_order(
+        rules: list[SigmaRule | SigmaCorrelationRule],
+    ) -> list[SigmaRule | SigmaCorrelationRule]:
+        """
+        Order rules such that each rule is preceded by all rules it refers to (directly or via other
+        correlation rules). Apart from that the given order is kept. A comparison based sort can't
+        be used here because "is referenced by" is only a partial order.
+        """
+        result: list[SigmaRule | SigmaCorrelationRule] = []
+        contained = {id(rule) for rule in rules}
+        visited: set[int] = set()
+
+        def visit(rule: SigmaRule | SigmaCorrelationRule) -> None:
+            if id(rule) in visited:
+                return
+            visited.add(id(rule))
+            if isinstance(rule, SigmaCorrelationRule):
+                for reference in rule.referenced_rules:
+                    if hasattr(reference, "rule") and id(reference.rule) in contained:
+                        visit(reference.rule)
+            result.append(rule)
+
+        for rule in rules:
+            visit(rule)
+        return result
 
     @classmethod
     def from_dicts(
